@@ -7,13 +7,14 @@ LEVEL = 'other'
 EXPLANATION = ('SCOPE rule F1 on the four merge_all observers and their queued subscribe tasks: no inner observable is subscribed, and no '
                'stored (queued) closure is called, while a guard of the shared observer_data cell may be held. An inner observable that emits '
                'synchronously at subscription re-enters InnerObserver::next, which re-acquires the same cell: RefCell panics, Mutex '
-               'self-deadlocks. F2: the queue of waiting inner subscriptions is first-in-first-out (necessary for concat order and for merge_all(n) serving waiters in arrival order). Decides the "without panicking or blocking" clause and this ordering precondition; exactly-once delivery, order, the concurrency '
+               'self-deadlocks. F3: each observer method takes its decision and acts on it within one acquisition of the shared state (no check-then-act split). F2: the queue of waiting inner subscriptions is first-in-first-out (necessary for concat order and for merge_all(n) serving waiters in arrival order). Decides the "without panicking or blocking" clause and this ordering precondition; exactly-once delivery, order, the concurrency '
                'bound and the completion condition are counter arithmetic over runtime values and are not decided. Inner/outer error '
                'envelopes are checked under C03.S2.')
 ASSUMPTIONS = ['an inner observable may emit synchronously during actual_subscribe']
 
 TAGS = ['ops::merge_all::InnerObserver', 'ops::merge_all::InnerObserverThreads', 'ops::merge_all::OutsideObserver', 'ops::merge_all::OutsideObserverThreads']
-CONTROLS = ['F1|<verif_controls::LockedFlatten<O, Item> as Observer>::next', 'F2|src/verif_controls.rs field `stack`']
+CONTROLS = ['F1|<verif_controls::LockedFlatten<O, Item> as Observer>::next', 'F2|src/verif_controls.rs field `stack`',
+            'F3|<verif_controls::SplitDecision<O> as Observer>::next']
 
 
 def check(cx):
@@ -60,6 +61,7 @@ def check(cx):
                                g.loc(n), [node_desc(g, n)]))
         else:
             res.append(Finding(ID, 'F1', label, True, '%d subscribe/queued-task site(s), none under the state guard' % len(sites), fn['span']))
+    res += f3(cx, ID, 'F3')
     from ..core import fifo_findings
     ff = fifo_findings(cx, ID, 'F2', ('src/ops/merge_all.rs',))
     res += ff
@@ -71,4 +73,44 @@ def check(cx):
                 res.append(Finding(ID, 'F1', 'table:' + t, False, 'merge_all observer not found (fail closed)'))
         if n_sites < 6:
             res.append(Finding(ID, 'F1', 'floor', False, 'only %d subscribe/queued-task sites found in merge_all, expected >= 6' % n_sites))
+    return res
+
+
+def f3(cx, prop, rule):
+    """check-then-act atomicity on the shared flattening state: within one observer method (or queued task) the
+    state cell is acquired at most once per path. The decision 'a slot is free / all slots are taken / nothing is
+    queued' and the action taken on it (count the slot, enqueue, hand the slot over, complete) must lie in one
+    critical section, otherwise another thread's inner completion can fall between them (lost wake-up: a queued
+    inner is never started, or the output never completes)."""
+    from ..core import guard_of, explore, ret_states, witness, interesting_default
+    F = cx.facts
+    res = []
+    n = 0
+    for im in cx.observer_impls():
+        tag = roles.impl_tag(cx, im)
+        if tag not in TAGS and not (cx.control and tag == 'verif_controls::SplitDecision'):
+            continue
+        for meth in ('next', 'error', 'complete'):
+            fn = cx.method(im, meth)
+            g = cx.graph(fn['key'])
+            label = cx.label(fn)
+            n += 1
+
+            def step(st, nd, lab):
+                if st == 'BAD':
+                    return None
+                gd = guard_of(nd)
+                if gd and not nd['ctx'] and ('observer_data' in gd[1] or gd[1] in ('self.0', 'self.state')):
+                    if st >= 1:
+                        return 'BAD'
+                    return st + 1
+                return st
+            reached, pred = explore(g, 0, step)
+            bad = [k for k in reached if k[1] == 'BAD']
+            res.append(Finding(prop, rule, label, not bad,
+                               'shared state acquired at most once per path (decision and action in one critical section)' if not bad else
+                               'the shared flattening state is acquired twice on one path: the decision taken under the first guard is acted upon under a second one, and an inner completion on another thread can fall in between (a queued inner is never started / the output never completes)',
+                               fn['span'], witness(g, pred, bad[0], interesting_default) if bad else None))
+    if not cx.control and n < 12:
+        res.append(Finding(prop, rule, 'floor', False, 'expected 12 merge_all observer methods, found %d' % n))
     return res
